@@ -55,28 +55,30 @@ class SyncEngine(BaseEngine):
 
         # We make sure that only the first event enters the processing critical section,
         # next events will only be put on the queue and processed by the same loop.
-        if not self._processing.acquire(blocking=False):
-            return None
-
         # We will collect the first result as the processing result to keep backwards compatibility
         # so we need to use a sentinel object instead of `None` because the first result may
         # be also `None`, and on this case the `first_result` may be overridden by another result.
         first_result = self._sentinel
-        try:
-            # Execute the triggers in the queue in FIFO order until the queue is empty
-            while self._external_queue:
-                trigger_data = self._external_queue.popleft()
-                try:
-                    result = self._trigger(trigger_data)
-                    if first_result is self._sentinel:
-                        first_result = result
-                except Exception:
-                    # Whe clear the queue as we don't have an expected behavior
-                    # and cannot keep processing
-                    self._external_queue.clear()
-                    raise
-        finally:
-            self._processing.release()
+        while self._processing.acquire(blocking=False):
+            try:
+                # Execute the triggers in the queue in FIFO order until the queue is empty
+                while self._external_queue:
+                    trigger_data = self._external_queue.popleft()
+                    try:
+                        result = self._trigger(trigger_data)
+                        if first_result is self._sentinel:
+                            first_result = result
+                    except Exception:
+                        # Whe clear the queue as we don't have an expected behavior
+                        # and cannot keep processing
+                        self._external_queue.clear()
+                        raise
+            finally:
+                self._processing.release()
+            # Another thread may have enqueued an event after our last emptiness test and failed
+            # to acquire the lock before we released it: check again so it is not left stranded.
+            if not self._external_queue:
+                break
         return first_result if first_result is not self._sentinel else None
 
     def _trigger(self, trigger_data: TriggerData):
